@@ -52,6 +52,7 @@ def check(ctx):
         r16_4(ctx, f, rec, n, extras, schema, key_colon)
     r16_5(ctx, extras, schema)
     r16_7(ctx, schema, extras)
+    r16_8(ctx, extras)
     ctx.not_decided.append("trailing blanks of the last optional field are removed by rstrip() before splitting (observation, outside the armed rules)")
 
 
@@ -481,3 +482,75 @@ def r16_7(ctx, schema, extras):
     if qn:
         ok = norm(qn[0].value) in (f"{extras['fields_var']}[0].split(' ')[0]", f"{extras['fields_var']}[0].split(' ', 1)[0]", f"{extras['fields_var']}[0]")
         ctx.check(ok, "R16.7", pf.where(qn[0]), "the read name is column 1 cut at its first space and nothing else", key_of(pf, f"query-name:{norm(qn[0].value)}"))
+
+
+def r16_8(ctx, extras):
+    """(a) every parsed record owns its field mapping: the mapping handed to the record constructor is created inside
+    the call that parses the line (a dict display / dict() / comprehension bound to a local), never an attribute of the
+    reader or a module-level object that the next line would overwrite; (b) the columns scanned for fields are the
+    pieces of the tab split, untouched: the column list is assigned only from the split."""
+    from ..core import local_defs, tail_inlined
+
+    repo = ctx.repo
+    pf0 = repo.func("gaftools.gaf", "GAF.parse_gaf_line", "R16.8")
+    pf = tail_inlined(repo, pf0)
+    ld = local_defs(pf.node)
+    ret = None
+    for n in walk_own(pf.node):
+        if isinstance(n, ast.Return) and isinstance(n.value, ast.Call):
+            ctor = repo.resolve_call(pf, n.value)
+            if ctor is not None and ctor.name == "__init__":
+                ret = (n.value, ctor)
+    if ret is None:
+        raise AnalysisError("R16.8", pf.where(), "parser does not return a constructed record")
+    call, ctor = ret
+    params = ctor.params[1:]
+    amap = {p_: a for p_, a in zip(params, call.args)}
+    for k in call.keywords:
+        amap[k.arg] = k.value
+    targ = amap.get("tags")
+    if targ is None:
+        raise AnalysisError("R16.8", pf.where(call), "the record constructor is not given a tags argument")
+
+    def origin(e, depth=0):
+        """-> list of (kind, text): 'fresh' for a dict created in this call, 'shared' for attributes / globals"""
+        if isinstance(e, ast.Dict) or isinstance(e, ast.DictComp) or (isinstance(e, ast.Call) and norm(e.func) in ("dict", "OrderedDict", "collections.OrderedDict") and not e.args):
+            return [("fresh", norm(e)[:40])]
+        if isinstance(e, ast.Name) and depth < 4:
+            ds = [d for d in ld.get(e.id, [])]
+            if not ds:
+                return [("shared", f"{e.id} (not a local of the parsing call)")]
+            out = []
+            for d in ds:
+                out += origin(d, depth + 1) if d is not None else [("unknown", e.id)]
+            return out
+        if isinstance(e, ast.Attribute) and depth < 4:
+            # field of a local namedtuple / result object built in this call
+            if isinstance(e.value, ast.Name):
+                ds = [d for d in ld.get(e.value.id, []) if d is not None]
+                if len(ds) == 1 and isinstance(ds[0], ast.Call):
+                    c = ds[0]
+                    nt = pf.module.consts.get(norm(c.func))
+                    if isinstance(nt, ast.Call) and norm(nt.func).endswith("namedtuple") and len(nt.args) >= 2 and isinstance(nt.args[1], (ast.List, ast.Tuple)):
+                        fields = [const_value(x) for x in nt.args[1].elts]
+                        vals = dict(zip(fields, c.args))
+                        for k in c.keywords:
+                            vals[k.arg] = k.value
+                        if e.attr in vals:
+                            return origin(vals[e.attr], depth + 1)
+            return [("shared", norm(e))]
+        if isinstance(e, ast.Call):
+            return [("unknown", norm(e)[:40])]
+        return [("unknown", norm(e)[:40])]
+
+    org = origin(targ)
+    shared = [t for k, t in org if k == "shared"]
+    unknown = [t for k, t in org if k == "unknown"]
+    if unknown and not shared:
+        raise AnalysisError("R16.8", pf.where(call), f"cannot tell where the record's field mapping is created: {unknown}")
+    ctx.check(not shared, "R16.8", pf.where(call), "every parsed record owns its field mapping (created in the call that parses the line): a mapping kept on the reader and reused would make earlier records of the same reader show the fields of the last line parsed", key_of(pf, f"tags-origin:{shared}"), origin=org)
+    # (b) the column list
+    fv = extras["fields_var"]
+    defs = [d for d in ld.get(fv, [])]
+    bad = [norm(d)[:60] if d is not None else "<loop/augmented>" for d in defs if not (d is not None and isinstance(d, ast.Call) and isinstance(d.func, ast.Attribute) and d.func.attr == "split" and d.args and const_value(d.args[0]) == "\t")]
+    ctx.check(bool(defs) and not bad, "R16.8", pf.where(), "the columns scanned for optional fields are the pieces of the tab split themselves (no per-column rewriting between the split and the field loop)", key_of(pf, f"columns-rewritten:{bad}"), other_definitions=bad)
